@@ -270,6 +270,10 @@ func (cn *CoreNet) MonologueStep(a *CNode, full bool) {
 	o["err"] = err != nil
 	o["serr"] = perr != nil
 	cn.blocks += len(o["blocks"].([]interface{}))
-	cn.w.Emit(a.num, "Sync", map[string]interface{}{"from": 0, "evs": []string{}, "ins": []string{}, "new": created}, o)
+	mx := map[string]interface{}{"from": 0, "evs": []string{}, "ins": []string{}, "new": created}
+	if cn.pred != nil {
+		mx["pred"] = cn.pred
+	}
+	cn.w.Emit(a.num, "Sync", mx, o)
 	cn.steps++
 }
